@@ -4,4 +4,4 @@ Extraction Language OCaml.
 Extraction "c12_model.ml" verify apply process bootstrap htr_header htr_lc_header committee_sign_root get_bits participating_keys
   from_update from_finality_update from_optimistic_update from_light_client_update from_light_client_finality_update
   from_light_client_optimistic_update verify_wire apply_wire calc_sync_period sha_pair
-  expected_current_slot time_at_slot verify_at conv_of process_wire run_wire.
+  expected_current_slot time_at_slot verify_at conv_of process_wire run_wire store_of_bootstrap process_op run_ops.
